@@ -15,6 +15,7 @@ macro_rules! dispatch {
         match $id {
             "C01" => $f(&props::c01::C01, $($args),*),
             "C02" => $f(&props::c02::C02, $($args),*),
+            "C05" => $f(&props::c05::C05, $($args),*),
             "C06" => $f(&props::c06::C06, $($args),*),
             "C13" => $f(&props::c13::C13, $($args),*),
             "C17" => $f(&props::c17::C17, $($args),*),
